@@ -463,10 +463,33 @@ def if_split_shader(ret_a, ret_b):
     return S
 
 
-def many_function_cases():
+def twin_groups_shader():
+    """two groups with pairwise equal resources (binding index, kind, type) that different stages use"""
+    S = _base([])
+    for g_ in (0, 1):
+        S["globals"].append({"name": "tex%d" % g_, "space": "handle", "group": str(g_), "binding": "0", "ty": {"k": "tex", "class": "sampled", "dim": "2d", "kind": "f32"}})
+        S["globals"].append({"name": "smp%d" % g_, "space": "handle", "group": str(g_), "binding": "1", "ty": {"k": "sampler", "cmp": False}})
+        S["globals"].append({"name": "ub%d" % g_, "space": "uniform", "group": str(g_), "binding": "2", "ty": VEC4})
+    S["entries"].append({"name": "vs_main", "stage": "vertex", "params": [], "result": {"k": "builtin", "b": "position"}, "wg": [],
+                         "body": [{"k": "access", "g": "tex0", "how": "tex_load"}, {"k": "access", "g": "smp0", "how": "sample", "with": "tex0"}, {"k": "access", "g": "ub0", "how": "load"}]})
+    S["entries"].append({"name": "fs_main", "stage": "fragment", "params": [], "wg": [],
+                         "body": [{"k": "access", "g": "tex1", "how": "tex_load"}, {"k": "access", "g": "smp1", "how": "sample", "with": "tex1"}, {"k": "access", "g": "ub1", "how": "load"}]})
+    return S
+
+
+def many_function_cases(push=False):
     out = []
-    for nfn, users in ((140, (3, 131)), (300, (5, 133, 261)), (260, (0, 128, 256, 259)), (520, (7, 263, 519))):
+    for nfn, users in ((140, (3, 131)), (300, (5, 133, 261)), (260, (0, 128, 256, 259)), (520, (7, 263, 519)), (70, (2, 66)), (200, (1, 65, 129, 193))):
         S = _base([])
+        if push:
+            # the push constant sits behind the LAST of the users; the others touch nothing
+            S["globals"].append({"name": "pc", "space": "push", "ty": VEC4})
+            for i in range(nfn):
+                S["functions"].append({"name": "fn%d" % i, "ret": (i % 2 == 0), "body": [{"k": "access", "g": "pc", "how": "load"}] if i == users[-1] else []})
+            S["entries"].append({"name": "vs", "stage": "vertex", "params": [], "wg": [], "body": [{"k": "call", "f": "fn%d" % i, "expr": (i % 2 == 0)} for i in users]})
+            S["entries"].append({"name": "fs", "stage": "fragment", "params": [], "wg": [], "body": [{"k": "call", "f": "fn%d" % users[0], "expr": (users[0] % 2 == 0)}]})
+            out.append({"id": "manyfn-push-%d" % nfn, "family": "many-functions", "S": S, "opts": opts()})
+            continue
         for j, u in enumerate(users):
             S["globals"].append({"name": "b%d" % j, "space": "storage_r", "group": "0", "binding": str(j), "ty": {"k": "array", "n": 4, "e": {"k": "scalar", "s": "u32"}}})
         for i in range(nfn):
@@ -612,6 +635,13 @@ def growth_cases(quick):
         A["globals"].append({"name": "deep", "space": "storage_r", "group": "0", "binding": "0", "ty": {"k": "struct", "name": "Deep"}})
         A["entries"].append({"name": "main", "stage": "compute", "params": [], "wg": ["1"], "body": [{"k": "access", "g": "deep", "how": "addr"}]})
         cases.append(("nested-array-d%d" % d, A))
+    for d in (8, 16, 24):
+        K = _base()
+        K["consts"] = [{"name": "c0", "expr": "1.0f", "expect": "f32:3f800000"}] + [{"name": "c%d" % i, "expr": "array(c%d, c%d)" % (i - 1, i - 1), "nonscalar": True} for i in range(1, d)]
+        K["entries"].append({"name": "main", "stage": "compute", "params": [], "wg": ["1"], "body": [{"k": "access", "g": "buf", "how": "load"}]})
+        cases.append(("const-dag-d%d" % d, K))
+    for d in (1, 2, 3):
+        cases.append(("else-if-chain-x%d" % d, nested("if_chain", d)))
     for gno in ("200000000", "4294967295"):
         Gx = _base([{"name": "far", "space": "uniform", "group": gno, "binding": "0", "ty": VEC4}, {"name": "near", "space": "uniform", "group": "0", "binding": gno, "ty": VEC4}])
         Gx["entries"].append({"name": "main", "stage": "compute", "params": [], "wg": ["1"], "body": [{"k": "access", "g": "far", "how": "load"}, {"k": "access", "g": "near", "how": "load"}]})
@@ -679,6 +709,10 @@ def push_cases(rng, n):
     # every leaf type once with every usage pattern class
     for t in leafs:
         mk(t, [], rng.choice(pats), rng.choice(stage_sets), rng.random() < 0.5)
+    f1 = {"k": "scalar", "s": "f32"}
+    for mem in ([{"name": "a", "ty": f1}, {"name": "b", "ty": f1, "size": 16}], [{"name": "a", "ty": f1}, {"name": "b", "ty": f1, "align": 16}],
+                [{"name": "a", "ty": {"k": "vec", "n": 3, "s": "f32"}, "size": 32}, {"name": "b", "ty": f1}], [{"name": "a", "ty": f1, "align": 8, "size": 24}]):
+        mk({"k": "struct", "name": "PushData"}, [{"name": "PushData", "members": mem}], ["direct"], ["vertex", "fragment"], False)
     # large push constants: 144, 192, 256 bytes (above every "guaranteed minimum")
     for ty in ({"k": "array", "n": 9, "e": VEC4}, {"k": "array", "n": 16, "e": VEC4}, {"k": "array", "n": 3, "e": {"k": "mat", "c": 4, "r": 4, "s": "f32"}}):
         mk(ty, [], ["direct", "nested"], ["vertex", "fragment"], False)
@@ -746,7 +780,7 @@ def host_members(rng, space, inner=None, big_arrays=False):
                 t = rng.choice([{"k": "struct", "name": inner}, {"k": "array", "n": 2, "e": {"k": "struct", "name": inner}}])
             else:
                 t = rand_leaf(rng)
-        mem.append({"name": ("gen" if rng.random() < 0.03 and not any(m["name"] == "gen" for m in mem) else "_pad%d" % j if rng.random() < 0.12 else "_padding" if rng.random() < 0.03 and not any(m["name"] == "_padding" for m in mem) else "f%d" % j), "ty": t})
+        mem.append({"name": (rng.choice(["h\u00f6he", "\u0394t", "viewProj", "N", "texCoord0", "m_Matrix"]) + str(j) if rng.random() < 0.1 else "gen" if rng.random() < 0.03 and not any(m["name"] == "gen" for m in mem) else "_pad%d" % j if rng.random() < 0.12 else "_padding" if rng.random() < 0.03 and not any(m["name"] == "_padding" for m in mem) else "f%d" % j), "ty": t})
     return mem
 
 
@@ -958,6 +992,9 @@ def role_shader0(rng, big_arrays=True, entry_names=False):
         st = [x for x in S["structs"] if x["name"] == "Store"][0]
         S["structs"].append({"name": "StoreTwin", "members": json_copy(st["members"])})
         bind("store_twin", "storage_r", {"k": "struct", "name": "StoreTwin"})
+    if rng.random() < 0.2 and any(x["name"] in ("VertexInput", "FragmentInput") for x in S["structs"]):
+        tgt = rng.choice([x["name"] for x in S["structs"] if x["name"] in ("VertexInput", "FragmentInput")])
+        S["functions"].append({"name": "scaled", "ret": True, "via_struct": tgt, "body": []})
     if rng.random() < 0.2:
         # a struct that lives only in function-local variables, handed to a helper by pointer (never host-visible)
         S["structs"].append({"name": "LocalOnly", "members": [{"name": "t0", "ty": {"k": "vec", "n": 3, "s": "f32"}}, {"name": "t1", "ty": {"k": "scalar", "s": "u32"}}]})
@@ -1044,6 +1081,8 @@ def rename_structs(S, rng):
     for f_ in S.get("functions", []):
         if f_.get("ptr_struct") in mp:
             f_["ptr_struct"] = mp[f_["ptr_struct"]]
+        if f_.get("via_struct") in mp:
+            f_["via_struct"] = mp[f_["via_struct"]]
     for d in S["structs"]:
         d["name"] = mp[d["name"]]
         fix(d["members"])
@@ -1404,7 +1443,7 @@ def const_shaders(rng, n_shaders, per=24):
         for j, c in enumerate(sel):
             c["name"] = rng.choice(["C", "k_", "\u03ba", "MAX_", "v\u00e9", "camelCase", "entry_", "source_"]) + str(j)
         # names that resemble items the generator emits itself (but are different identifiers: Rust is case sensitive)
-        special = (["source", "device", "targets"] if i % 3 == 2 else []) + ["raw", "safe", "gen", "entry_fs_main", "push_constant_stages", "Source", "entry_FS_MAIN", "bind_groups_", "fs_main_entry_", "Entry_Fs_Main"]
+        special = (["source", "device", "targets"] if i % 3 == 2 else []) + ["_PI", "_lanes", "_DEBUG", "raw", "safe", "gen", "entry_fs_main", "push_constant_stages", "Source", "entry_FS_MAIN", "bind_groups_", "fs_main_entry_", "Entry_Fs_Main"]
         rng.shuffle(special)
         for j, nm_ in enumerate(special[:rng.randint(1, 4)]):
             if j < len(sel):
